@@ -742,17 +742,187 @@ fn wrap_strategy() -> BoxedStrategy<WrapCase> {
         .boxed()
 }
 
+// ------------------------------------------------------------------ statically typed error chains
+
+/// The error of a statically typed composition names the failing part level by level.  It can be walked
+/// in two ways - `std::error::Error::source` and `miette::Diagnostic::diagnostic_source` (all of the crate's
+/// combinator errors implement both) - and both walks have to show the same levels down to the probe's
+/// own error, and the element index where a `map` is involved.
+#[derive(Debug)]
+pub struct SErr(pub u8);
+impl std::fmt::Display for SErr {
+    fn fmt(&self, f: &mut std::fmt::Formatter<'_>) -> std::fmt::Result {
+        write!(f, "static probe {} failed", self.0)
+    }
+}
+impl StdError for SErr {}
+impl miette::Diagnostic for SErr {}
+
+pub struct SP {
+    id: u8,
+    /// fails on this call (counted per probe value)
+    fail_on_call: Option<u32>,
+    calls: std::cell::Cell<u32>,
+}
+impl SP {
+    fn new(id: u8, fail_on_call: Option<u32>) -> Self {
+        Self { id, fail_on_call, calls: std::cell::Cell::new(0) }
+    }
+}
+impl Composable for SP {}
+impl Operator<i64> for SP {
+    type Output = i64;
+    type Error = SErr;
+    fn apply<R: Rng + ?Sized>(&self, x: i64, _: &mut R) -> Result<i64, SErr> {
+        let n = self.calls.get();
+        self.calls.set(n + 1);
+        if self.fail_on_call == Some(n) { Err(SErr(self.id)) } else { Ok(x + i64::from(self.id)) }
+    }
+}
+/// makes a vector of three copies
+pub struct SV;
+impl Composable for SV {}
+impl Operator<i64> for SV {
+    type Output = Vec<i64>;
+    type Error = SErr;
+    fn apply<R: Rng + ?Sized>(&self, x: i64, _: &mut R) -> Result<Vec<i64>, SErr> {
+        Ok(vec![x, x + 1, x + 2])
+    }
+}
+
+fn std_chain(e: &(dyn StdError + 'static)) -> Vec<String> {
+    let mut out = vec![e.to_string()];
+    let mut cur = e.source();
+    while let Some(c) = cur {
+        out.push(c.to_string());
+        cur = c.source();
+    }
+    out
+}
+fn diag_chain(e: &dyn miette::Diagnostic) -> Vec<String> {
+    let mut out = vec![e.to_string()];
+    let mut cur = e.diagnostic_source();
+    while let Some(c) = cur {
+        out.push(c.to_string());
+        cur = c.diagnostic_source();
+    }
+    out
+}
+
+fn judge_chains<E: StdError + miette::Diagnostic + 'static>(what: &str, e: &E, depth: usize, probe_id: u8, element: Option<usize>) -> Result<(), Fail> {
+    let (s, d) = (std_chain(e), diag_chain(e));
+    let leaf = format!("static probe {probe_id} failed");
+    ensure!(s.last() == Some(&leaf) && s.len() == depth, "compose/error-path", "{what}: the source() chain {s:?} does not lead through {depth} levels to '{leaf}'");
+    ensure!(
+        s == d,
+        "compose/diagnostic-chain-differs-from-source-chain",
+        "{what}: walking the error by diagnostic_source() gives {d:?}, by source() {s:?}; the level that says which part failed must not be skipped"
+    );
+    if let Some(i) = element {
+        ensure!(
+            s.iter().any(|l| l.contains(&format!("{i}-th element"))),
+            "compose/error-path",
+            "{what}: no level of {s:?} names element {i}"
+        );
+    }
+    Ok(())
+}
+
+fn static_chain_case(kind: u8, failing: u8, call: u32) -> Result<bool, Fail> {
+    let mut rng = Counting::new(1);
+    let f = |id: u8| if id == failing { Some(call) } else { None };
+    match kind {
+        0 => {
+            let op = SP::new(1, f(1)).then(SP::new(2, f(2)));
+            match op.apply(5, &mut rng) {
+                Err(e) => judge_chains("p1.then(p2)", &e, 2, failing, None).map(|()| true),
+                Ok(_) => Ok(false),
+            }
+        }
+        1 => {
+            let op = SP::new(1, f(1)).and(SP::new(2, f(2)));
+            match op.apply(5, &mut rng) {
+                Err(e) => judge_chains("p1.and(p2)", &e, 2, failing, None).map(|()| true),
+                Ok(_) => Ok(false),
+            }
+        }
+        2 => {
+            // array: p0 twice, then map p1.then(p2) over the two results
+            let op = SP::new(0, f(0)).apply_twice().then_map(SP::new(1, f(1)).then(SP::new(2, f(2))));
+            match op.apply(5, &mut rng) {
+                Err(e) => {
+                    let (depth, element) = if failing == 0 { (2, None) } else { (4, Some(call as usize)) };
+                    judge_chains("p0.apply_twice().then_map(p1.then(p2))", &e, depth, failing, element).map(|()| true)
+                }
+                Ok(_) => Ok(false),
+            }
+        }
+        3 => {
+            // tuple
+            let op = SP::new(0, f(0)).and(SP::new(3, f(3))).then_map(SP::new(1, f(1)).and(SP::new(2, f(2))));
+            match op.apply(5, &mut rng) {
+                Err(e) => {
+                    let (depth, element) = if failing == 0 || failing == 3 { (3, None) } else { (4, Some(call as usize)) };
+                    judge_chains("p0.and(p3).then_map(p1.and(p2))", &e, depth, failing, element).map(|()| true)
+                }
+                Ok(_) => Ok(false),
+            }
+        }
+        4 => {
+            // Vec
+            let op = SV.then_map(SP::new(1, f(1)).then(SP::new(2, f(2))));
+            match op.apply(5, &mut rng) {
+                Err(e) => judge_chains("make_vec.then_map(p1.then(p2))", &e, 4, failing, Some(call as usize)).map(|()| true),
+                Ok(_) => Ok(false),
+            }
+        }
+        _ => {
+            // a plain operator under map, and a map nested in a map
+            let op = SV.then_map(SP::new(1, f(1)));
+            match op.apply(5, &mut rng) {
+                Err(e) => judge_chains("make_vec.then_map(p1)", &e, 3, failing, Some(call as usize)).map(|()| true),
+                Ok(_) => Ok(false),
+            }
+        }
+    }
+}
+
+fn static_error_chains(ctx: &mut Ctx) {
+    let mut cases = vec![];
+    for kind in 0u8..6 {
+        for failing in 0u8..4 {
+            for call in 0u32..3 {
+                cases.push((kind, failing, call));
+            }
+        }
+    }
+    ctx.run_cases("static_error_chains", cases, |(kind, failing, call), probe| {
+        let failed = match guarded(|| static_chain_case(*kind, *failing, *call)) {
+            Ok(r) => r?,
+            Err(p) => fail!(format!("compose/panic:{}", panic_key(&p)), "statically typed composition {kind} panicked: {p}"),
+        };
+        probe.nontrivial = failed;
+        if failed {
+            probe.label("failing statically typed composition");
+        }
+        Ok(())
+    });
+}
+
 pub fn run(ctx: &mut Ctx) {
-    ctx.rule = "compositions: generated spec trees (depth <= 6) over then / and / map (array, tuple, Vec) / apply_n_times<0..3> / apply_twice().then_map / Identity / Constant around probe operators that log (call order, input seen, words drawn) and fail at a scripted call; every combinator node is the crate's real type (children boxed as the crate's Box<dyn DynOperator>), compared with a reference interpreter of the spec: same calls in the same order with the same inputs, same words at the same stream offsets, nothing after the first failure, final generator state, value, and the failing part recovered from the error value. wrappers: Select / Mutate / Recombine (by value and by reference), GenomeExtractor, Identity, Constant and the usual select-twice -> extract -> recombine -> mutate -> score pipeline against the stages run by hand from an equal generator state. non-trivial = depth >= 2 and (a scripted failure or >= 2 random-drawing probes); distinct by JSON encoding".into();
+    ctx.rule = "compositions: generated spec trees (depth <= 6) over then / and / map (array, tuple, Vec) / apply_n_times<0..3> / apply_twice().then_map / Identity / Constant around probe operators that log (call order, input seen, words drawn) and fail at a scripted call; every combinator node is the crate's real type (children boxed as the crate's Box<dyn DynOperator>), compared with a reference interpreter of the spec: same calls in the same order with the same inputs, same words at the same stream offsets, nothing after the first failure, final generator state, value, and the failing part recovered from the error value. static error chains: statically typed then / and / then_map (array, tuple, Vec) compositions of probes with an error type that is both std Error and miette Diagnostic - the source() and diagnostic_source() walks show the same levels down to the failing probe and name the failing element. wrappers: Select / Mutate / Recombine (by value and by reference), GenomeExtractor, Identity, Constant and the usual select-twice -> extract -> recombine -> mutate -> score pipeline against the stages run by hand from an equal generator state. non-trivial = depth >= 2 and (a scripted failure or >= 2 random-drawing probes); distinct by JSON encoding".into();
     ctx.assumptions.push("the failing part is read from the error's Debug/Display text (the error types' fields are private); if that text cannot be parsed the path is reported as unobservable, not as a violation".into());
     let (n, nw) = ctx.tier.pick((300_000u32, 100_000u32), (6_000_000, 1_000_000));
     ctx.run_prop("compositions", n, strategy, oracle);
     ctx.run_prop("wrappers", nw, wrap_strategy, wrapper_oracle);
+    static_error_chains(ctx);
 }
 
 pub fn replay(ctx: &mut Ctx, sub: &str, case: &Value) {
     if sub == "wrappers" {
         ctx.replay_case::<WrapCase, _>(sub, case, wrapper_oracle);
+    } else if sub == "static_error_chains" {
+        static_error_chains(ctx);
     } else {
         ctx.replay_case::<Case, _>(sub, case, oracle);
     }
